@@ -21,13 +21,6 @@ NonPeerCall == /\ Is("Call") /\ ~Ev.peer
                /\ bad' = bad \cup (IF Ev.result = "ok" \/ Ev.changed THEN {<<"nonpeer", l, Ev.msg, Ev.result>>} ELSE {})
                              \cup (IF Ev.crashed THEN {<<"crash", l>>} ELSE {})
                /\ UNCHANGED st
-\* "oddprepare": a prepare the instance may or may not be able to act on (threshold 0, a participant list without the instance itself).
-\* Whether it is accepted is the instance's business - but it is refused while a generation is active, and the answer is the truth:
-\* accepted = a generation is active from now on, refused = nothing has changed
-OddStep(s, a, result) ==
-    IF s[a].active THEN [class |-> "refused", next |-> s]
-    ELSE IF result = "ok" THEN [class |-> "ok", next |-> [s EXCEPT ![a] = [s[a] EXCEPT !.active = TRUE, !.got = {}]]]
-    ELSE [class |-> result, next |-> s]
 Call == /\ Is("Call") /\ Ev.peer
         /\ LET msg == [m |-> Ev.msg, a |-> Ev.account, from |-> Ev.from]
                r == IF Ev.msg = "oddprepare" THEN OddStep(st, Ev.account, Ev.result) ELSE Step(st, msg)
